@@ -27,7 +27,7 @@ def entry_type_policy(path):
     depth = S.Len(comps)
     return S.If(S.And(depth == 3, S.endswith(path, '.ebuild')), 'EBUILD',
                 S.If(S.And(depth == 3, S.Eq(S.nth(comps, 2), 'metadata.xml')), 'MISC',
-                     S.If(S.And(depth >= 3, S.Eq(S.nth(comps, 2), 'files')), 'AUX', 'DATA')))
+                     S.If(S.And(depth >= 4, S.Eq(S.nth(comps, 2), 'files')), 'AUX', 'DATA')))
 
 
 @contract('gemato/profile.py', 'DefaultProfile.want_compressed_manifest', props=['C13', 'C19'])
